@@ -34,5 +34,8 @@ for line in open(os.path.join(VERIF, "properties.jsonl")):
     text += tmpl[task_start:]
     text = text.replace("seed3-C19", f"seed{rnd}-{pid}").replace("seed3-out/C19", f"seed{rnd}-out/{pid}").replace('"property": "C19"', f'"property": "{pid}"')
     text = text.replace("produce 2 *different*", f"produce {n} *different*").replace("k = 1..2", f"k = 1..{n}").replace("find 2 acceptable", f"find {n} acceptable")
+    # EXTRA9: from round nine on, ask explicitly for changes that need something specific to manifest
+    if int(rnd) >= 9:
+        text = text.replace(" 5. is different in mechanism", "    In this round prefer, in this order: two cooperating sites that each look fine alone (a helper whose contract is subtly changed plus a caller that relies on the old contract); a multi-step sequence of operations or a particular history (second run, re-create, state left behind by an earlier command); a fault or early end at a particular point (short read, interrupted write, a peer or tracker that stops mid-message, an error on the N-th item); an unusual but legal input (sizes at exact multiples, empty items, repeated items, extreme but in-range values). Ordinary use must not expose the change at once.\n 5. is different in mechanism", 1)
     open(f"/tmp/seedprops/prompt{rnd}-{pid}.txt", "w").write(text)
     print(pid, len(prior), "prior attempts")
